@@ -90,3 +90,182 @@ Proof.
   all: destruct r as [|[|] r]; cbn [begin t_pc is_wset is_wr] in *;
     pose proof (G3 _ eq_refl eq_refl) as Ha; cbn [is_wset t_pc] in Ha; lia.
 Qed.
+
+Lemma stays_run (P : cfg -> Prop) (F : cfg -> Z) :
+  (forall c u, Inv c -> P c -> P (step c u) -> F (step c u) <= F c) ->
+  forall s c, Inv c -> P c -> stays P c s -> F (run c s) <= F c.
+Proof.
+  intros Hstep. induction s as [|u s IH]; intros c HI HP Hs; unfold run in *; cbn [fold_left]; [lia|].
+  destruct Hs as [HP' Hs]. pose proof (IH (step c u) (step_inv c u HI) HP' Hs).
+  pose proof (Hstep c u HI HP HP'). lia.
+Qed.
+
+(* while reader t keeps waiting, at most one writer enters the critical section *)
+Theorem reader_bypass c s t w : Inv c -> rd_waits t w c -> stays (rd_waits t w) c s ->
+  wents (log (run c s)) <= wents (log c) + 1.
+Proof.
+  intros HI HP Hs.
+  pose proof (stays_run (rd_waits t w) (fun c => wents (log c) + wbudget c w)
+                (fun c u HI HP HP' => reader_bypass_step c t u w HI HP HP') s c HI HP Hs) as H.
+  cbv beta in H. pose proof (wbudget_le1 c w HI). pose proof (wbudget_le1 _ w (run_inv s c HI)). lia.
+Qed.
+
+(* ---- a writer whose bits are set (waiting for the readers of the current phase) ---- *)
+Definition wr_waits (t : nat) (tk : Z) (c : cfg) : Prop :=
+  exists th, nth_error (thrs c) t = Some th /\ t_pc th = PWr tk.
+(* readers that were blocked by the previous writer and have not yet noticed that it left *)
+Definition is_erw (wo : Z) (th : thr) : bool :=
+  match t_pc th with PRw w => negb (w =? cur wo) | _ => false end.
+
+Lemma writer_bypass_step c t u tk : Inv c -> wr_waits t tk c -> wr_waits t tk (step c u) ->
+  wout (step c u) = wout c /\
+  wents (log (step c u)) = wents (log c) /\
+  rents (log (step c u)) + cnt (is_erw (wout c)) (thrs (step c u)) =
+  rents (log c) + cnt (is_erw (wout c)) (thrs c).
+Proof.
+  intros HI (th & Hn & Hpc) (th' & Hn' & Hpc').
+  destruct (Nat.eq_dec u t) as [->|Hne].
+  { unfold step in *. rewrite Hn, Hpc in *.
+    destruct (rout c =? tk); [|auto].
+    cbn [thrs] in Hn'. rewrite (nth_upd_same _ _ _ _ Hn) in Hn'. inversion Hn'; subst th'. discriminate. }
+  clear th' Hn' Hpc'. destruct HI as [Hlen HT HR].
+  pose proof (ri_rng c HR) as [Hrin Hrout].
+  assert (Hh : is_hold th = true) by (unfold is_hold; rewrite Hpc; reflexivity).
+  assert (Hpos : 0 < cnt is_wset (thrs c)).
+  { apply (cnt_pos_of_nth _ _ t th Hn). unfold is_wset. rewrite Hpc. reflexivity. }
+  destruct (low_bits c HR) as [(E & _)|(_ & _ & E4)]; [lia|].
+  pose proof (cur_23 (wout c)) as H23.
+  assert (G : forall uh, nth_error (thrs c) u = Some uh -> is_hold uh = true -> False).
+  { intros uh Hu Hhu. apply Hne. apply (hold_unique c u t uh th HT Hu Hhu Hn Hh). }
+  unfold step, wents, rents. destruct (nth_error (thrs c) u) as [uh|] eqn:Hu; [|auto].
+  destruct uh as [p r]. cbn [t_pc t_rest].
+  destruct p; try (exfalso; apply (G _ eq_refl eq_refl)).
+  - destruct r as [|[|] r]; cbn [log thrs wout sumz begin]; rewrite (cnt_upd _ _ _ _ _ Hu);
+      cbn [is_erw t_pc]; repeat split; lia.
+  - rewrite !land_wbits by (try apply wrap_range; lia).
+    assert (Hm4 : wrap (rin c + RINC) mod 4 = rin c mod 4) by (unfold wrap, RINC; lia).
+    rewrite Hm4, E4, Z.eqb_refl. destruct (cur (wout c) =? 0) eqn:E0; [lia|].
+    cbn [orb negb log thrs wout sumz]. rewrite (cnt_upd _ _ _ _ _ Hu).
+    cbn [is_erw t_pc at_pc]. rewrite Z.eqb_refl. cbn [negb]. repeat split; lia.
+  - rewrite land_wbits by lia. rewrite E4.
+    destruct (w =? cur (wout c)) eqn:Ew; [auto|].
+    cbn [log thrs wout sumz]. rewrite (cnt_upd _ _ _ _ _ Hu).
+    cbn [is_erw t_pc at_pc]. rewrite Ew. cbn [negb]. repeat split; lia.
+  - cbn [log thrs wout sumz]. rewrite (cnt_upd _ _ _ _ _ Hu). cbn [is_erw t_pc at_pc]. repeat split; lia.
+  - destruct r as [|[|] r]; cbn [log thrs wout sumz begin]; rewrite (cnt_upd _ _ _ _ _ Hu);
+      cbn [is_erw t_pc]; repeat split; lia.
+  - destruct (wout c =? win c); cbn [log thrs wout sumz]; rewrite (cnt_upd _ _ _ _ _ Hu);
+      cbn [is_erw t_pc at_pc]; repeat split; lia.
+  - destruct (wout c =? tk0); [|auto]. cbn [log thrs wout sumz]. rewrite (cnt_upd _ _ _ _ _ Hu).
+    cbn [is_erw t_pc at_pc]. repeat split; lia.
+  - auto.
+Qed.
+
+Lemma stays_run_eq (P : cfg -> Prop) (F : cfg -> Z) :
+  (forall c u, Inv c -> P c -> P (step c u) -> F (step c u) = F c) ->
+  forall s c, Inv c -> P c -> stays P c s -> F (run c s) = F c.
+Proof.
+  intros Hstep. induction s as [|u s IH]; intros c HI HP Hs; unfold run in *; cbn [fold_left]; [lia|].
+  destruct Hs as [HP' Hs]. pose proof (IH (step c u) (step_inv c u HI) HP' Hs).
+  pose proof (Hstep c u HI HP HP'). lia.
+Qed.
+
+(* while writer t waits with its bits set: no other writer enters, and the readers that
+   enter are taken from those that were waiting on the previous writer's bits (none of the
+   readers that arrive later); their number is bounded by the readers counted in its ticket *)
+Theorem writer_bypass c s t tk : Inv c -> wr_waits t tk c -> stays (wr_waits t tk) c s ->
+  wents (log (run c s)) = wents (log c) /\
+  rents (log (run c s)) + cnt (is_erw (wout c)) (thrs (run c s)) =
+    rents (log c) + cnt (is_erw (wout c)) (thrs c) /\
+  256 * cnt (is_erw (wout c)) (thrs c) <= (tk - rout c) mod M32.
+Proof.
+  intros HI HP Hs.
+  assert (Hwo : forall s c', Inv c' -> wr_waits t tk c' -> stays (wr_waits t tk) c' s ->
+                wout (run c' s) = wout c').
+  { apply (stays_run_eq (wr_waits t tk) wout). intros c' u HI' H1 H2.
+    apply (writer_bypass_step c' t u tk HI' H1 H2). }
+  repeat split.
+  - apply (stays_run_eq (wr_waits t tk) (fun c => wents (log c))); auto.
+    intros c' u HI' H1 H2. apply (writer_bypass_step c' t u tk HI' H1 H2).
+  - revert c HI HP Hs. induction s as [|u s IH]; intros c HI HP Hs; unfold run in *; cbn [fold_left]; [lia|].
+    destruct Hs as [HP' Hs].
+    destruct (writer_bypass_step c t u tk HI HP HP') as (E1 & _ & E3).
+    pose proof (IH (step c u) (step_inv c u HI) HP' Hs) as H. rewrite E1 in H. lia.
+  - destruct HP as (th & Hn & Hpc). destruct HI as [_ _ HR].
+    destruct (ri_wr c HR t th tk Hn Hpc) as [_ Hd]. rewrite Hd.
+    assert (cnt (is_erw (wout c)) (thrs c) <= cnt (early (wout c)) (thrs c)); [|lia].
+    apply cnt_mono. intros p. unfold is_erw, early. destruct (t_pc p); auto; discriminate.
+Qed.
+
+(* ---- writers enter in ticket order ------------------------------------------------ *)
+Definition ww_waits (t : nat) (tk : Z) (c : cfg) : Prop :=
+  exists th, nth_error (thrs c) t = Some th /\ t_pc th = PWw tk.
+(* the served ticket's owner is already past its entry *)
+Definition is_ent (th : thr) : bool := match t_pc th with PWcs | PWx | PWy => true | _ => false end.
+Lemma ent_hold th : is_ent th = true -> is_hold th = true.
+Proof. unfold is_ent, is_hold. destruct (t_pc th); auto. Qed.
+(* writer entries that can still precede the owner of ticket tk *)
+Definition ahead (c : cfg) (tk : Z) : Z := (tk - wout c) mod M32 - cnt is_ent (thrs c).
+
+Lemma ahead_bounds c t tk : Inv c -> ww_waits t tk c ->
+  0 <= ahead c tk <= (tk - wout c) mod M32 /\ (tk - wout c) mod M32 < cnt is_A (thrs c).
+Proof.
+  intros [_ HT _] (th & Hn & Hpc). unfold ahead.
+  assert (HA : is_A th = true) by (unfold is_A; rewrite Hpc; reflexivity).
+  pose proof (ti_lt c HT t th Hn HA) as Hlt. unfold off in Hlt. rewrite Hpc in Hlt.
+  pose proof (cnt_nonneg is_ent (thrs c)). pose proof (cnt_hold_le1 c HT).
+  pose proof (cnt_mono is_ent is_hold (thrs c) ent_hold).
+  split; [|exact Hlt]. split; [|lia].
+  destruct (Z.eq_dec ((tk - wout c) mod M32) 0) as [E|E]; [|lia].
+  assert (cnt is_ent (thrs c) = 0); [|lia].
+  apply cnt_zero_of_all. intros u uh Hu. destruct (is_ent uh) eqn:Ee; [|reflexivity]. exfalso.
+  assert (u = t).
+  { apply (ti_inj c HT u t uh th Hu Hn (hold_A _ (ent_hold _ Ee)) HA).
+    rewrite (hold_off c u uh HT Hu (ent_hold _ Ee)). unfold off. rewrite Hpc. lia. }
+  subst u. rewrite Hn in Hu. inversion Hu; subst uh. unfold is_ent in Ee. rewrite Hpc in Ee. discriminate.
+Qed.
+
+Lemma fifo_step c t u tk : Inv c -> ww_waits t tk c -> ww_waits t tk (step c u) ->
+  wents (log (step c u)) + ahead (step c u) tk = wents (log c) + ahead c tk.
+Proof.
+  intros HI (th & Hn & Hpc) (th' & Hn' & Hpc').
+  destruct (Nat.eq_dec u t) as [->|Hne].
+  { unfold step in *. rewrite Hn, Hpc in *.
+    destruct (wout c =? tk); [|auto].
+    cbn [thrs] in Hn'. rewrite (nth_upd_same _ _ _ _ Hn) in Hn'. inversion Hn'; subst th'. discriminate. }
+  clear th' Hn' Hpc'. destruct HI as [Hlen HT HR].
+  assert (HA : is_A th = true) by (unfold is_A; rewrite Hpc; reflexivity).
+  (* if u is past the ticket wait, t's ticket is not the served one *)
+  assert (G : forall uh, nth_error (thrs c) u = Some uh -> is_hold uh = true ->
+              1 <= (tk - wout c) mod M32).
+  { intros uh Hu Hh. destruct (Z.eq_dec ((tk - wout c) mod M32) 0) as [E|E]; [|lia].
+    exfalso. apply Hne. apply (ti_inj c HT u t uh th Hu Hn (hold_A _ Hh) HA).
+    rewrite (hold_off c u uh HT Hu Hh). unfold off. rewrite Hpc. lia. }
+  unfold step, wents, ahead. destruct (nth_error (thrs c) u) as [uh|] eqn:Hu; [|auto].
+  destruct uh as [p r]. cbn [t_pc t_rest].
+  destruct p; repeat match goal with |- context[if ?b then _ else _] => destruct b end;
+    cbn [log thrs wout sumz]; rewrite ?(cnt_upd _ _ _ _ _ Hu); cbn [is_ent t_pc at_pc]; try lia;
+    try (destruct r as [|[|] r]; cbn [begin t_pc]; lia).
+  (* PWy: wout moves on *)
+  pose proof (G _ eq_refl eq_refl) as H1.
+  rewrite (diff_inc_r tk (wout c) _ eq_refl H1).
+  destruct r as [|[|] r]; cbn [begin t_pc]; lia.
+Qed.
+
+(* while writer t waits for its ticket, at most as many writers enter as there are
+   tickets before its own (minus the served one if its owner is already inside) *)
+Theorem writer_fifo c s t tk : Inv c -> ww_waits t tk c -> stays (ww_waits t tk) c s ->
+  wents (log (run c s)) <= wents (log c) + ahead c tk /\
+  ahead c tk <= (tk - wout c) mod M32 < cnt is_A (thrs c).
+Proof.
+  intros HI HP Hs.
+  pose proof (stays_run_eq (ww_waits t tk) (fun c => wents (log c) + ahead c tk)
+                (fun c u HI HP HP' => fifo_step c t u tk HI HP HP') s c HI HP Hs) as H.
+  cbv beta in H.
+  assert (HP' : ww_waits t tk (run c s)).
+  { clear H. revert c HI HP Hs. induction s as [|u s IH]; intros c HI HP Hs; [exact HP|].
+    destruct Hs as [HP' Hs]. unfold run in *. cbn [fold_left]. apply (IH (step c u)); auto.
+    apply step_inv, HI. }
+  pose proof (ahead_bounds _ t tk (run_inv s c HI) HP') as [[H0 _] _].
+  pose proof (ahead_bounds c t tk HI HP) as [[_ H1] H2]. lia.
+Qed.
